@@ -161,6 +161,38 @@ func c16Literals(c *Ctx) []string {
 			add("-" + v.String())
 		}
 	}
+	// wrap points: multiples of 2^63 / 2^64 / 2^32 / 2^16 / 2^8 (a wrapped accumulator lands near 0 there)
+	// and every leading digit at the longest accepted lengths (19 and 20 digits)
+	for _, k := range []uint{8, 16, 32, 63, 64} {
+		for m := int64(2); m <= 6; m++ {
+			b := new(big.Int).Mul(new(big.Int).Lsh(big.NewInt(1), k), big.NewInt(m))
+			for d := int64(-1); d <= 1; d++ {
+				v := new(big.Int).Add(b, big.NewInt(d))
+				add(v.String())
+				add("-" + v.String())
+			}
+		}
+	}
+	for lead := 1; lead <= 9; lead++ {
+		for _, n := range []int{18, 19, 20, 21} {
+			for rep := 0; rep < 3; rep++ {
+				var sb strings.Builder
+				sb.WriteByte(byte('0' + lead))
+				for j := 1; j < n; j++ {
+					switch rep {
+					case 0:
+						sb.WriteByte('0')
+					case 1:
+						sb.WriteByte('9')
+					default:
+						sb.WriteByte(byte('0' + c.Rng.Intn(10)))
+					}
+				}
+				add(sb.String())
+				add("-" + sb.String())
+			}
+		}
+	}
 	p := big.NewInt(1)
 	for k := 0; k <= 25; k++ {
 		for d := int64(-1); d <= 1; d++ {
